@@ -13,6 +13,7 @@ import H263V.Spec.Recon
 import H263V.Lemmas.VlcTables
 import H263V.Thm.C12
 import H263V.Lemmas.SorensonPicture
+import H263V.Lemmas.GatherSpec
 namespace H263V.Thm.C03
 open H263V H263V.Gather H263V.Mv H263V.Spec.Vlc
 
@@ -123,5 +124,38 @@ theorem non_inter_stores_zero_vector (hdr : PicHdr) (dims : Option (Nat × Nat))
       simp only [pure, Out.ok.injEq] at *
       subst_vars
       rfl
+
+
+open H263V.Lemmas.GatherSpec in
+/-- **Block level, all paths.**  For every reference plane, every row length ≥ 1, every block position (incl. blocks cropped by
+the right or bottom border and blocks entirely outside), every vector (whole, half in x, half in y, half in both; pointing any
+distance outside any edge) and every target plane of the same size, `gather_block` succeeds and writes, inside the block, exactly
+the prediction `predAt`: the clamped reference sample for whole vectors, `(a + b + 1) / 2` for one half component,
+`(a + b + c + d + 2) / 4` for two — every other target sample is untouched.  The slice-copy fast path equals the generic path. -/
+theorem gather_block_eq_spec (px : Array Nat) (spr : Nat) (hs : 1 ≤ spr) (pos : Nat × Nat) (mv : Mb.Mv) (target : Array Nat)
+    (hsz : target.size = px.size) :
+    ∃ t', gatherBlock px spr pos mv target = .ok t' ∧ t'.size = px.size ∧
+      ∀ k, t'.getD k 0 =
+        if pos.2 ≤ k / spr ∧ k / spr < pos.2 + min 8 (px.size / spr - pos.2) ∧ pos.1 ≤ k % spr ∧ k % spr < pos.1 + min 8 (spr - pos.1) then
+          predAt px spr (px.size / spr) ((k % spr : Nat) + (lerpParams mv.1).1) ((k / spr : Nat) + (lerpParams mv.2).1)
+            (lerpParams mv.1).2 (lerpParams mv.2).2
+        else target.getD k 0 :=
+  gatherBlock_spec px spr hs pos mv target hsz
+
+open H263V.Lemmas.GatherSpec in
+/-- the prediction formula spelled out for the four kinds of vector -/
+theorem predAt_cases (px : Array Nat) (spr rows : Nat) (x y : Int) :
+    predAt px spr rows x y false false = refAt px spr rows x y ∧
+    predAt px spr rows x y true false = (refAt px spr rows x y + refAt px spr rows (x + 1) y + 1) / 2 ∧
+    predAt px spr rows x y false true = (refAt px spr rows x y + refAt px spr rows x (y + 1) + 1) / 2 ∧
+    predAt px spr rows x y true true =
+      (refAt px spr rows x y + refAt px spr rows (x + 1) y + refAt px spr rows x (y + 1) + refAt px spr rows (x + 1) (y + 1) + 2) / 4 := by
+  simp [predAt, lerp]
+
+/-- the whole / half split of a vector component: `v` half samples = `⌊v/2⌋` whole samples plus a half iff `v` is odd -/
+theorem lerp_params_floor (v : Int) : (lerpParams v).1 = v / 2 ∧ ((lerpParams v).2 = true ↔ v % 2 = 1) := by
+  unfold lerpParams tmod2 tdiv2
+  repeat' split
+  all_goals (constructor <;> simp <;> omega)
 
 end H263V.Thm.C03
